@@ -81,9 +81,11 @@ class BuildError(Exception):
     pass
 
 
-def build_rt(scn_cpp, lib_sources=(), extra_flags=(), std=None):
+def build_rt(scn_cpp, lib_sources=(), extra_flags=(), std=None, extra_srcs=()):
     """Build an atomic-level harness: scenario + selected /repo sources compiled with
-    -fsanitize=thread, linked against harness/rt/rt.cpp (no libtsan).  Cached by content."""
+    -fsanitize=thread, linked against harness/rt/rt.cpp (no libtsan).  Cached by content.
+    extra_srcs: further runtime files of harness/rt (e.g. rt_io.cpp, syscall interposition),
+    compiled like rt.cpp (no sanitizer) and linked only into this harness."""
     rtdir = os.path.join(VERIF, "harness", "rt")
     scn = os.path.join(rtdir, scn_cpp) if not os.path.isabs(scn_cpp) else scn_cpp
     lib = [os.path.join(REPO, "source", s) for s in lib_sources]
@@ -92,7 +94,8 @@ def build_rt(scn_cpp, lib_sources=(), extra_flags=(), std=None):
         flags = [f for f in flags if not f.startswith("-std=")] + ["-std=" + std]
         if "20" in std:
             flags.append("-fcoroutines")
-    key = sha_files([scn, os.path.join(rtdir, "rt.cpp"), os.path.join(rtdir, "rt.hpp"), os.path.join(rtdir, "rt_main.hpp")]
+    extra = [os.path.join(rtdir, s) if not os.path.isabs(s) else s for s in extra_srcs]
+    key = sha_files([scn, os.path.join(rtdir, "rt.cpp"), os.path.join(rtdir, "rt.hpp"), os.path.join(rtdir, "rt_main.hpp")] + extra
                     + glob.glob(os.path.join(rtdir, "*.hpp")), repo_hash() + " ".join(flags) + " ".join(lib_sources))
     outdir = os.path.join(BUILD, key)
     exe = os.path.join(outdir, "harness")
@@ -101,7 +104,7 @@ def build_rt(scn_cpp, lib_sources=(), extra_flags=(), std=None):
     os.makedirs(outdir, exist_ok=True)
     tsan = flags + ["-fsanitize=thread", "-I" + rtdir]
     objs1, e1 = compile_objs([scn] + lib, tsan, outdir, "t")
-    objs2, e2 = compile_objs([os.path.join(rtdir, "rt.cpp")], [f for f in flags if not f.startswith("-I" + REPO)] + ["-I" + rtdir], outdir, "r")
+    objs2, e2 = compile_objs([os.path.join(rtdir, "rt.cpp")] + extra, [f for f in flags if not f.startswith("-I" + REPO)] + ["-I" + rtdir], outdir, "r")
     if e1 or e2:
         raise BuildError("\n".join(f"{s}:\n{o}" for s, o in e1 + e2))
     r = run([GXX, "-pthread", "-o", exe] + objs1 + objs2 + ["-ldl"])
